@@ -701,6 +701,69 @@ def _eval_paths(ps, env):
     return None
 
 
+def _repeated_ok(fnode: ast.FunctionDef) -> bool:
+    """`repeated`: mark; collect while the item succeeds, re-marking after each success; on the failing attempt go back to the
+    last mark and return what was collected.  Both loop spellings (`while (r := f()):` … / `while True: r = f(); if not r: …`)
+    are brought to one set of iteration paths."""
+    import re
+    from ..pyflow import stmt_paths
+    body = [s for s in fnode.body if not (isinstance(s, ast.Expr) and isinstance(s.value, ast.Constant))]
+    loops = [s for s in body if isinstance(s, ast.While)]
+    if len(loops) != 1:
+        return False
+    loop = loops[0]
+    i = body.index(loop)
+    pre, post = body[:i], body[i + 1:]
+    pre_t = sorted(norm_stmt(s) for s in pre)
+    # names
+    m = [re.fullmatch(r"(\w+) = self\._mark\(\)", t) for t in pre_t]
+    l = [re.fullmatch(r"(\w+)(?:: [^=]+)? = \[\]", t) for t in pre_t]
+    mark = next((x.group(1) for x in m if x), None)
+    lst = next((x.group(1) for x in l if x), None)
+    if mark is None or lst is None or len(pre) != 2:
+        return False
+    try:
+        if isinstance(loop.test, ast.Constant) and loop.test.value is True:
+            if post:
+                return False
+            its = stmt_paths(loop.body)
+        else:
+            # `while T: B` + `post`  ==  `while True: if not T: post; B`
+            guard = ast.If(test=ast.UnaryOp(op=ast.Not(), operand=loop.test), body=post, orelse=[])
+            ast.copy_location(guard, loop)
+            ast.fix_missing_locations(guard)
+            its = stmt_paths([guard] + loop.body)
+    except AnalysisError:
+        return False
+    norm = set()
+    for pth in its:
+        out = []
+        for x in pth:
+            if x[0] == "cond":
+                mm = re.fullmatch(r"\((\w+) := (.+)\)", x[1])
+                if mm:   # walrus test: the call, then the test of its result
+                    out.append(("do", f"{mm.group(1)} = {mm.group(2)}"))
+                    out.append(("cond", mm.group(1), x[2]))
+                else:
+                    out.append(x)
+            else:
+                out.append(x)
+        norm.add(tuple(out))
+    res = None
+    for pth in norm:
+        for x in pth:
+            mm = re.fullmatch(r"(\w+) = func\(\*args\)", x[1]) if x[0] == "do" else None
+            if mm:
+                res = mm.group(1)
+    if res is None:
+        return False
+    want = {
+        (("do", f"{res} = func(*args)"), ("cond", res, True), ("do", f"{lst}.append({res})"), ("do", f"{mark} = self._mark()"), ("exit", "end", "")),
+        (("do", f"{res} = func(*args)"), ("cond", res, False), ("do", f"self._reset({mark})"), ("exit", "return", lst)),
+    }
+    return norm == want
+
+
 def rule_is_blank(chk: Check, R: str = "R-combinators"):
     # the token filter between tokenizer and parser: decided as a truth table over a finite domain (token kind x blank text x
     # raw-capture flag x "previous kept token is NEWLINE"), so the shape of the function is irrelevant
@@ -829,9 +892,7 @@ def rule_combinators(chk: Check):
     # repetition: keep the position after the last successful item
     f = fn("Parser.repeated")
     chk.count(R)
-    chk.require(stmts(f) == ["v0 = self._mark()", "v1 = []",
-                             "while (v2 := func(*args)): v1.append(v2) v0 = self._mark()",
-                             "self._reset(v0)", "return v1"], R, "Parser.repeated", f.where,
+    chk.require(_repeated_ok(f.node), R, "Parser.repeated", f.where,
                 "`repeated` must collect results in order, remember the position after each success and restore it after the failing attempt")
     # ordered choice without actions: first truthy result, position restored between alternatives
     f = fn("Parser.seq_alts")
@@ -868,9 +929,26 @@ def rule_combinators(chk: Check):
     chk.count(R)
     rets = [norm_stmt(n) for n in own_nodes(f.node) if isinstance(n, ast.Return)]
     loops = [n for n in own_nodes(f.node) if isinstance(n, ast.While)]
+    from ..pyflow import stmt_paths as _sp2
+    body_ok = False
+    if len(loops) == 1:
+        try:
+            body_ok = True
+            for pth in _sp2(loops[0].body, opaque_loops=True):
+                conds = {x[1]: x[2] for x in pth if x[0] == "cond"}
+                eff = [x[1] for x in pth if x[0] == "do"]
+                blank = conds.get("self.is_blank(tok)")
+                if blank is None:
+                    blank = not conds["not self.is_blank(tok)"] if "not self.is_blank(tok)" in conds else None
+                appended = eff.count("self._tokens.append(tok)")
+                # a token is cached exactly when the filter keeps it
+                if blank is None or appended != (0 if blank else 1):
+                    body_ok = False
+        except AnalysisError:
+            body_ok = False
     chk.require(rets == ["return self._tokens[self._index]"] and len(loops) == 1 and
-                norm_stmt(loops[0].test) == "self._index == len(self._tokens)" and
-                any(norm_stmt(s) == "self._tokens.append(tok)" for s in loops[0].body), R, "Tokenizer.peek", f.where,
+                norm_stmt(loops[0].test) in ("self._index == len(self._tokens)", "len(self._tokens) == self._index",
+                                             "self._index >= len(self._tokens)") and body_ok, R, "Tokenizer.peek", f.where,
                 "`peek` must fetch (and append) tokens only while the index is at the end of the cache and return the token at the index")
     # left recursion by seed growing
     f = fn("memoize_left_rec.memoize_left_rec_wrapper")
